@@ -119,6 +119,8 @@ def build(spec):
             cls = registry()[spec["cls"]]
             kwargs = {k: build(v) for k, v in spec.items() if k != "cls"}
             return cls(**kwargs)
+        if "float" in spec:  # non-finite numbers are written as text: JSON has no NaN / infinity
+            return float(spec["float"])
         if "tuple" in spec:
             return tuple(build(x) for x in spec["tuple"])
         if "array" in spec:
